@@ -60,7 +60,7 @@ class C01(Check):
         "cases: request texts rendered from generated documents (single request objects and arrays of 0..6 elements aimed at a "
         "14-method registry: valid calls / notifications, non-binding params, unknown methods, member-alphabet deviations of "
         "jsonrpc/id/method/params, non-object elements, duplicate ids), arbitrary JSON values, containers nested 8..62 levels, integer "
-        "literals of 4300/4301/10000 digits spliced at id/params/nested/jsonrpc/method, mangled texts (truncation, stray bytes, single "
+        "literals of 4300/4301/10000 digits spliced at id/params/nested/jsonrpc/method, float literals beyond the double range (1e400) at id/jsonrpc/method, mangled texts (truncation, stray bytes, single "
         "quotes, trailing commas, BOM, unbalanced brackets) and raw non-JSON strings x sync/async dispatcher x max_batch_size "
         "{unset,0,1,2,3,4,6} x method behaviours (return any JSON value, raise protocol error, raise 12 exception types). Oracle: "
         "dispatch never raises; returns None or (str, tuple); the text parses and satisfies the independent response-document validator "
@@ -70,7 +70,7 @@ class C01(Check):
     assumptions = [
         "methods return JSON-encodable values; no user middleware / error handler raises (the property's proviso)",
         "nesting <= 64 levels (python's json recursion limit is outside the quantifier)",
-        "NaN/Infinity literals are not generated",
+        "NaN / Infinity tokens are not generated, and overflowing float literals never inside params (they would come back through the echo methods); the response text is parsed strictly (NaN / Infinity in it are a violation)",
     ]
     trusted_base = ['pbt/wellformed.py', 'python json (response text parsed with the stdlib decoder)']
     required_classes = [
@@ -92,6 +92,8 @@ class C01(Check):
                 {**base, 'text': t({'jsonrpc': '2.0', 'id': 1, 'method': 'echo', 'params': [docs.PLACEHOLDER]}, huge=4301)},
                 {**base, 'text': t([{'jsonrpc': '2.0', 'method': 'noargs'}, {'jsonrpc': '2.0', 'method': 'noargs'}])},
                 {**base, 'text': t({'jsonrpc': '2.0', 'id': True, 'method': 'noargs'})},
+                {**base, 'text': t({'jsonrpc': '2.0', 'id': docs.PLACEHOLDER, 'method': 'noargs'}, huge='overflow')},
+                {**base, 'text': t([{'jsonrpc': '2.0', 'id': 1, 'method': 'noargs'}, {'jsonrpc': docs.PLACEHOLDER, 'id': 2, 'method': 'noargs'}], huge='overflow')},
                 {**base, 'text': {'raw': ''}},
                 {**base, 'text': {'raw': '[]'}},
                 {**base, 'text': t([1])},
